@@ -156,6 +156,74 @@ def explore_state(run, state, name, where, r, budget):
     return n
 
 
+def attribute_states(run, r, thys, cap):
+    """States built from the theorems that carry a hint attribute: the goal is an instance of the side the hint is about
+    (left / right side of the equation under a fresh predicate for rewriting hints, the conclusion for backward hints,
+    the first assumption as a fact for forward hints), with the schematic variables turned into free variables."""
+    from kernel.type import TVar, TFun, TyInst, BoolType
+    from kernel.term import Var, Inst, Implies, Comb
+    n_states = n_sug = 0
+    for thy in thys:
+        try:
+            context.set_context(thy, vars={})
+        except RecursionError:
+            raise
+        except Exception as e:
+            run.stat('attr_context_exc:' + type(e).__name__)
+            continue
+        names = sorted(n for n, attrs in theory.thy.data['attributes'].items() if any(a.startswith('hint_') for a in attrs))
+        r.shuffle(names)
+        rare = [n for n in names if any(a in ('hint_rewrite_sym', 'hint_forward', 'hint_resolve') for a in theory.thy.get_attributes(n))]
+        names = rare[:cap // 2] + [n for n in names if n not in rare[:cap // 2]]
+        for name in names[:cap]:
+            attrs = theory.thy.get_attributes(name)
+            try:
+                th = theory.get_theorem(name)
+                ti = TyInst(**{v.name: TVar(v.name) for v in th.prop.get_stvars()})
+                prop = th.prop.subst_type(ti)
+                svs = prop.get_svars()
+                prop = prop.subst(Inst(**{v.name: Var(v.name, v.T) for v in svs}))
+                As, C = prop.strip_implies()
+            except RecursionError:
+                raise
+            except Exception as e:
+                run.stat('attr_prep_exc:' + type(e).__name__)
+                continue
+            goals = []
+            for a in attrs:
+                if a in ('hint_rewrite', 'hint_rewrite_sym') and C.is_equals():
+                    side = C.lhs if a == 'hint_rewrite' else C.rhs
+                    T = side.get_type()
+                    g_ = side if T == BoolType else Comb(Var('Pv', TFun(T, BoolType)), side)
+                    goals.append((a, Implies(*(As + [g_]))))
+                elif a in ('hint_backward', 'hint_backward1'):
+                    goals.append((a, Implies(*(As[:1] + [C])) if a == 'hint_backward1' and As else C))
+                elif a == 'hint_forward' and As:
+                    goals.append((a, Implies(As[0], Var('Qv', BoolType))))
+                elif a == 'hint_resolve' and As:
+                    goals.append((a, Implies(*(As + [Const_false()]))))
+            for a, goal in goals:
+                try:
+                    vars_ = {v.name: v.T for v in goal.get_vars()}
+                    context.set_context(thy, vars=vars_)
+                    state = server.parse_init_state(goal)
+                    copy.copy(state).check_proof()
+                except RecursionError:
+                    raise
+                except Exception as e:
+                    run.stat('attr_state_exc:%s:%s' % (a, type(e).__name__))
+                    continue
+                n_sug += explore_state(run, state, '%s.%s[%s]' % (thy, name, a), 'goal %s' % sstr(goal), r, 20)
+                n_states += 1
+                run.stat('attr_state:' + a)
+    return dict(states=n_states, suggestions_applied=n_sug, theories=thys)
+
+
+def Const_false():
+    from kernel.term import false
+    return false
+
+
 def run_check(tier, seed):
     run = Run(PROP, 'proof', tier, seed)
     proof_stage(run, PROP)
@@ -193,6 +261,8 @@ def run_check(tier, seed):
             n_sug += explore_state(run, state, name, 'after step %d' % k, r, 12)
             n_states += 1
     run.cov['search'] = dict(states=n_states, suggestions_applied=n_sug, theories=thys)
+    run.cov['search_attribute_states'] = attribute_states(run, r, ['logic', 'nat'] if tier == 'quick' else ['logic', 'set', 'function', 'nat', 'int', 'list', 'real'],
+                                                          30 if tier == 'quick' else 400)
     if first:
         run.sample(dict(theorem=first[0], first_step=first[1]))
     run.cov['rule'] = ('states = every prefix of the recorded proofs of %s; up to 3 open gaps per state, fact selections: none, up to 3 single '
